@@ -132,3 +132,16 @@ def reset_caches():
     import jedi.cache
     parso.cache.parser_cache.clear()
     jedi.cache.clear_time_caches(True)
+
+
+def forget_path(path):
+    """Drop the in-memory parser-cache entry of one path (so the next Script for it parses from scratch
+    instead of diff-parsing against an unrelated earlier text)."""
+    import parso.cache
+    for per_grammar in parso.cache.parser_cache.values():
+        per_grammar.pop(str(path), None)
+        try:
+            from pathlib import Path
+            per_grammar.pop(Path(path), None)
+        except Exception:
+            pass
